@@ -59,6 +59,13 @@ MUT = [
      [(TB, '            if y > end:\n                return\n            row.y = y\n            yield row', '            if y > end:\n                return\n            row.y = y - start\n            yield row')]),
     ('c08_get_column_no_x', 'C08', True, 'get_column without `column.x = x`',
      [(TB, '        if column is None:\n            raise ValueError\n        column.x = x\n        return column', '        if column is None:\n            raise ValueError\n        return column')]),
+    ('seeded_C08-3', 'C08', True, 'independent: _yield_odf_rows duplicates the copy it has just yielded (visible only under lazy consumption of traverse())', 'seeded/C08-3/patch.diff'),
+    ('c08_row_traverse_copies_previous', 'C08', True, 'Row.traverse(): every further cell of a run is a copy of the copy yielded before (the F112 repair removed, unbounded branch only)',
+     [(RW, '                    if cell is None:\n                        cell_copy = Cell()\n                    else:\n                        cell_copy = cell.clone\n                        if repeated > 1:\n                            cell_copy.repeated = None\n                    cell_copy.y = self.y\n                    cell_copy.x = x\n                    x += 1\n                    yield cell_copy',
+       '                    if cell is None:\n                        cell = Cell()\n                    else:\n                        cell = cell.clone\n                        if repeated > 1:\n                            cell.repeated = None\n                    cell.y = self.y\n                    cell.x = x\n                    x += 1\n                    yield cell')]),
+    ('c08_traverse_columns_copies_previous', 'C08', True, 'traverse_columns(start, end): every further column of a run is a copy of the copy yielded before (the F112 repair removed, bounded branch only)',
+     [(TB, '                        column_copy = column.clone\n                        column_copy.x = x\n                        if repeated > 1 or (x == start and start > 0):\n                            column_copy.repeated = None\n                        x += 1\n                        yield column_copy',
+       '                        column = column.clone\n                        column.x = x\n                        if repeated > 1 or (x == start and start > 0):\n                            column.repeated = None\n                        x += 1\n                        yield column')]),
     ('seeded_C08-1', 'C08', True, 'independent: set_item_in_vault pops only the slot of the replaced item (a later get_cell reads a shifted wrapper)', 'seeded/C08-1/patch.diff'),
     ('seeded_C08-2', 'C08', True, 'independent: get_column_cells without the translation of a negative x', 'seeded/C08-2/patch.diff'),
     # ---------------- C10 (table half)
